@@ -118,10 +118,17 @@ def RA_reply_invoke(data):
         return None
 
 
+_dialog_baseline = {}
+
+
 def run_history(steps):
-    """steps: ["inject", [hex, ...]] | ["adv", dt].  Returns (fails, stats)."""
+    """steps: ["inject", [hex, ...]] | ["adv", dt] | ["dialog", seed, invoke, window, [[round, hex], ...]].  Returns (fails, stats)."""
     L = lablib()
     DeviceApp, ClientApp = LD.device_classes()
+    # the undisturbed run of every dialog in this history comes first (a lab of its own: labs cannot be nested)
+    for st_ in steps:
+        if st_[0] == "dialog" and st_[4] and (st_[1] % 2,) not in _dialog_baseline:
+            run_history([["dialog", st_[1], st_[2], st_[3], []]])
     lab = StackLab()
     boot.swallowed.take()
     dev = lab.add_stack(2, DeviceApp, segmentation="segmentedBoth", max_apdu=1024, max_segs=16, retries=1, apdu_timeout=1000, seg_timeout=500, app_timeout=3000)
@@ -138,11 +145,13 @@ def run_history(steps):
                 kinds = set()
                 for hx in st_[1]:
                     src_mac = 99
+                    lan_bcast = hx.endswith("*")
+                    hx = hx.rstrip("*")
                     if "@" in hx:
                         hx, m_ = hx.split("@")
                         src_mac = int(m_)
                     frame = bytes.fromhex(hx)
-                    c = classify(frame)
+                    c = classify(frame) if not lan_bcast else None
                     if c is not None:
                         c["via"] = src_mac
                         c["client"] = (src_mac, (c["sadr"][0], bytes(c["sadr"][1])) if c["sadr"] is not None else None)
@@ -167,10 +176,79 @@ def run_history(steps):
                     else:
                         kinds.add("garbage")
                     stats["injected"] += 1
-                    lab.inject(src_mac, 2, frame)
+                    lab.inject(src_mac, None if lan_bcast else 2, frame)
                 if len(kinds) == 2:
                     stats["mixed_instants"] += 1
                 lab.settle()
+            elif st_[0] == "dialog":
+                # a requester that takes a segmented answer properly (acks every window) while strangers' aborts / segment-acks fly by:
+                # the transfer must complete with the same content as without them
+                _, si, inv, win, strays = st_
+                stats["dialogs"] = stats.get("dialogs", 0) + 1
+                name, svc, body, expect = seeds()[6 + si % 2]
+                frame = LD.request_frame(inv, svc, body, maxresp=0, maxsegs=0, sa=True)
+                c = classify(frame)
+                c.update(via=99, client=(99, None), t=lab.now, idx=len(att.seen), frame=frame.hex(), segdialog=True)
+                used.add((c["client"], inv))
+                owed.append(c)
+                stats["well_framed"] += 1
+                lab.inject(99, 2, frame)
+                lab.settle()
+                got, done_, aborted, pos = {}, False, None, c["idx"]
+                for rnd in range(120):
+                    last = None
+                    for (t, src, dst, data) in att.seen[pos:]:
+                        if src is None or src.addrAddr != b"\x02" or dst is None or dst.addrAddr != bytes([99]):
+                            continue
+                        try:
+                            a = RA.decode(RN.decode(data)["data"])
+                        except Exception:
+                            continue
+                        if a.get("invoke") != inv:
+                            continue
+                        if a["type"] == 3 and a.get("seg"):
+                            if a["seq"] == (max(got) + 1 if got else 0):
+                                got[a["seq"]] = bytes(a["data"])
+                            last = a
+                            if not a["mor"] and a["seq"] in got:
+                                done_ = True
+                        elif a["type"] == 3:
+                            got[0] = bytes(a["data"])
+                            done_ = True
+                        elif a["type"] == 7:
+                            aborted = a.get("reason")
+                    pos = len(att.seen)
+                    for when, hx in strays:
+                        if when == rnd:
+                            m_ = 99
+                            if "@" in hx:
+                                hx, mm = hx.split("@")
+                                m_ = int(mm)
+                            stats["injected"] += 1
+                            lab.inject(m_, 2, bytes.fromhex(hx))
+                    if aborted is not None or (done_ and last is None):
+                        break
+                    if last is not None or got:
+                        ack = RN.encode(dict(msg=None, dadr=None, sadr=None, er=False, prio=0, hop=None,
+                                             data=RA.encode(dict(type=RA.SEGACK, nak=False, srv=False, invoke=inv, seq=max(got) if got else 0, win=win))))
+                        lab.inject(99, 2, ack)
+                    lab.settle()
+                    if done_:
+                        break
+                    if last is None:
+                        lab.run(lab.now + 0.6)
+                        VC.clk.now = max(VC.clk.now, lab.now)
+                content = b"".join(got[k_] for k_ in sorted(got))
+                base = _dialog_baseline.get((si % 2,))
+                if not strays:
+                    _dialog_baseline[(si % 2,)] = (done_, content)
+                if strays and base is not None and base[0]:
+                    if not done_:
+                        fails.append(("dialog:segmented-answer-%s-by-stray-frame" % ("aborted" if aborted is not None else "stalled"),
+                                      "a segmented answer (invoke %d) taken properly by its requester did not complete (abort reason %r, %d segments received) while these frames from others arrived: %r"
+                                      % (inv, aborted, len(got), strays)))
+                    elif content != base[1]:
+                        fails.append(("dialog:segmented-answer-content-changed", "invoke %d: %d octets instead of %d" % (inv, len(content), len(base[1]))))
             elif st_[0] == "adv":
                 lab.run(lab.now + float(st_[1]))
                 VC.clk.now = max(VC.clk.now, lab.now)
@@ -605,11 +683,28 @@ def run(spec, ctx):
             lambda t: LD.RN.encode(dict(msg=None, dadr=None, sadr=None, er=False, prio=0, hop=None,
                                         data=RA.encode(dict(type=RA.SEGACK, nak=t[3], srv=t[4], invoke=t[0], seq=t[1], win=t[2])))).hex())
         iam = st.tuples(st.sampled_from([99, 2, 7]), st.sampled_from([50, 128, 480, 1476]), st.integers(0, 3)).map(lambda t: LD.iam_frame(*t).hex())
+        # the device learns (and re-learns) its network number from Network-Number-Is broadcasts of the routers
+        nni = st.tuples(st.sampled_from([3, 4, 9]), st.integers(0, 1), st.integers(0, 1)).map(
+            lambda t: "%s@%d*" % (RN.encode(dict(msg=0x13, vendor=None, dadr=None, sadr=None, er=False, prio=0, hop=None, data=RN.encode_msg(0x13, dict(net=t[0], flag=t[1])))).hex(), 98 + t[2]))
         vsa = st.tuples(st.integers(0, 9), st.integers(0, 12), st.sampled_from([0, 2, 7])).map(lambda t: LD.request_frame(t[1], seeds()[t[0]][1], seeds()[t[0]][2], sa=True, maxsegs=t[2]).hex())
-        step = st.one_of(st.tuples(st.just("inject"), st.lists(st.one_of(vf, vsa, iam, mf, mf, garbage, rf, rf, reveal, sr, segack, segack), min_size=1, max_size=5)).map(list),
+        step = st.one_of(st.tuples(st.just("inject"), st.lists(st.one_of(vf, vsa, iam, nni, mf, mf, garbage, rf, rf, reveal, sr, segack, segack), min_size=1, max_size=5)).map(list),
                          st.tuples(st.just("adv"), st.sampled_from([0.0, 0.1, 0.5, 1.0, 2.1, 6.0])).map(list))
+        # strangers' aborts / segment-acks: other invoke IDs from the requester's address, or its invoke ID from other addresses
+        def stray(t):
+            kind_, inv_, mac_, srv_, seq_ = t
+            if kind_ == "abort":
+                apdu = RA.encode(dict(type=RA.ABORT, srv=srv_, invoke=inv_, reason=9))
+            else:
+                apdu = RA.encode(dict(type=RA.SEGACK, nak=False, srv=srv_, invoke=inv_, seq=seq_, win=2))
+            return "%s@%d" % (RN.encode(dict(msg=None, dadr=None, sadr=None, er=False, prio=0, hop=None, data=apdu)).hex(), mac_)
+        who = st.one_of(st.tuples(st.sampled_from([101, 102, 103]), st.just(99)), st.tuples(st.sampled_from([100, 101, 7, 0]), st.sampled_from([98, 97])))
+        strays = st.lists(st.tuples(st.integers(0, 6), st.tuples(st.sampled_from(["abort", "abort", "segack"]), who, st.booleans(), st.integers(0, 5)).map(
+            lambda t: stray((t[0], t[1][0], t[1][1], t[2], t[3])))).map(list), min_size=1, max_size=4)
+        dialog = st.tuples(st.just("dialog"), st.integers(0, 1), st.just(100), st.sampled_from([1, 2, 4]), strays).map(list)
         strat = st.lists(step, min_size=1, max_size=8).map(lambda s: dict(k="h", steps=s))
         ctx.for_all(strat, spec["n"])
+        strat = st.tuples(st.lists(step, max_size=2), dialog, st.lists(step, max_size=2)).map(lambda t: dict(k="h", steps=t[0] + [t[1]] + t[2]))
+        ctx.for_all(strat, max(50, spec["n"] // 5), salt=5)
     elif kind == "iam":
         # the requester has announced itself (I-Am with every segmentation support x max-APDU), then asks with and without the
         # segmented-response-accepted bit, for every kind of answer; a second I-Am may arrive between the requests
@@ -629,7 +724,22 @@ def run(spec, ctx):
                     # the same in one instant
                     ctx.check(dict(k="h", steps=[["inject", [x for st_ in steps for x in st_[1]]]]))
                     n_ += 2
-        ctx.mark_exhaustive("I-Am of the requester (4 segmentation values x 4 max-APDU sizes, repeated or changed mid-way) followed by every seed with and without segmented-response-accepted")
+        # network number learned, learned again, then requesters on remote networks behind either router
+        def nni_(net, flag, mac):
+            return "%s@%d*" % (RN.encode(dict(msg=0x13, vendor=None, dadr=None, sadr=None, er=False, prio=0, hop=None, data=RN.encode_msg(0x13, dict(net=net, flag=flag)))).hex(), mac)
+
+        def routed_(si, inv, net, mac):
+            name, svc, body, expect = seeds()[si]
+            apdu = RA.encode(dict(type=RA.CONF, seg=False, mor=False, sa=False, maxsegs=0, maxresp=5, invoke=inv, service=svc, data=body))
+            return "%s@%d" % (RN.encode(dict(msg=None, dadr=None, sadr=(net, b"\x07"), er=True, prio=0, hop=None, data=apdu)).hex(), mac)
+        for nets_ in ([3], [3, 3], [3, 4], [3, 4, 3], [4, 9, 3]):
+            for flag in (0, 1):
+                for together in (False, True):
+                    steps = [["inject", [nni_(n_x, flag, 98)]] for n_x in nets_]
+                    reqs = [routed_(si, 30 + si, 5 + (si % 2), 98 + (si % 2)) for si in range(6)] + [seed_frame(1, invoke=40).hex()]
+                    steps += [["inject", reqs]] if together else [["inject", [r_]] for r_ in reqs]
+                    ctx.check(dict(k="h", steps=steps))
+        ctx.mark_exhaustive("I-Am of the requester (4 segmentation values x 4 max-APDU sizes, repeated or changed mid-way) followed by every seed with and without segmented-response-accepted; network number learned 1..3 times, then routed requesters")
     elif kind == "link-mutate":
         dev = spec["dev"]
         ok = link_frame(seed_frame(1, invoke=31))                    # a valid ReadProperty that must be answered whatever stands next to it
